@@ -6,7 +6,9 @@ package main
 
 import (
 	"bytes"
+	"context"
 	"fmt"
+	"log/slog"
 	"net/url"
 	"os"
 	"strconv"
@@ -14,7 +16,9 @@ import (
 	"time"
 
 	"go.uber.org/zap"
+	"go.uber.org/zap/exp/zapslog"
 	"go.uber.org/zap/zapcore"
+	"go.uber.org/zap/zapgrpc"
 	"go.uber.org/zap/zzverif/vsched"
 	"go.uber.org/zap/zzverif/vsync"
 	"verif/harness/internal/ev"
@@ -92,7 +96,8 @@ func build(kind string) *env {
 	return e
 }
 
-// ops: I small Info, B big Info, S sugar Infow, C Check+Write, W With-child Info, Y logger.Sync, K tick
+// ops: I small Info, B big Info, S sugar Infow, F sugar Infof, N sugar Infoln, C Check+Write, W With-child Info,
+// L slog handler, G gRPC adapter, P std-log bridge, Y logger.Sync, K tick
 func msgOf(op byte, thr, idx int) string {
 	m := fmt.Sprintf("%c-t%d-%d", op, thr, idx)
 	if op == 'B' {
@@ -114,6 +119,18 @@ func doOp(e *env, op byte, thr, idx int) {
 		}
 	case 'W':
 		e.logger.With(zap.String("ctx", "c"+strconv.Itoa(thr))).Info(m, zap.Int("n", thr))
+	case 'F':
+		e.logger.Sugar().Infof("%s n=%d", m, thr)
+	case 'N':
+		e.logger.Sugar().Infoln(m, thr)
+	case 'L': // slog front end over the same core
+		r := slog.NewRecord(e.clock.T, slog.LevelInfo, m, 0)
+		r.AddAttrs(slog.Int("n", thr))
+		_ = zapslog.NewHandler(e.logger.Core()).Handle(context.Background(), r)
+	case 'G': // gRPC adapter
+		zapgrpc.NewLogger(e.logger).Info(m, thr)
+	case 'P': // std-log bridge (a log.Logger of its own per call: package log's mutex is not under the scheduler)
+		zap.NewStdLog(e.logger).Print(m)
 	case 'Y':
 		_ = e.logger.Sync()
 	case 'K':
@@ -257,13 +274,29 @@ func main() {
 				if !run.Thorough() && len(progs[i])+len(progs[j]) == 4 && (kind == "open" || kind == "open1" || kind == "combine1" || kind == "teebuf") {
 					continue
 				}
-				items = append(items, fmt.Sprintf("c04|%s|%d|%s;%s", kind, pre, progs[i], progs[j]))
+				ipre := pre
+				if len(progs[i])+len(progs[j]) == 4 {
+					ipre = 2 // four log calls: bound 2 in both tiers (bound 3 there costs a quarter of an hour and the extra preemption only permutes completed calls)
+				}
+				items = append(items, fmt.Sprintf("c04|%s|%d|%s;%s", kind, ipre, progs[i], progs[j]))
 			}
 		}
 		for i := 0; i < len(singles); i++ {
 			for j := i; j < len(singles); j++ {
 				for k := j; k < len(singles); k++ {
 					items = append(items, fmt.Sprintf("c04|%s|%d|%s;%s;%s", kind, pre, singles[i], singles[j], singles[k]))
+				}
+			}
+		}
+		if kind == "lock" || kind == "buffered" {
+			// the other front ends that end in the shared core: Sugar formatting styles, slog handler, gRPC adapter, std-log bridge
+			extra := []string{"F", "N", "L", "G", "P"}
+			for i, a := range extra {
+				for _, b := range []string{"I", "B", "W", "C", "S"} {
+					items = append(items, fmt.Sprintf("c04|%s|%d|%s;%s", kind, pre, a, b))
+				}
+				for _, b := range extra[i:] {
+					items = append(items, fmt.Sprintf("c04|%s|%d|%s;%s", kind, pre, a, b))
 				}
 			}
 		}
@@ -315,6 +348,7 @@ func main() {
 		"exhaustive":                    sum.Exhaustive,
 		"drivers":                       len(items),
 		"preemption_bound":              pre,
+		"preemption_bound_note":         "drivers with four log calls use bound 2 in both tiers",
 		"executions_with_branching":     sum.Branching,
 		"max_threads":                   sum.MaxThreads,
 		"max_decision_points":           sum.MaxPoints,
